@@ -140,8 +140,8 @@ def initStateD (G : Grid) (elev : Array Int) (nod : Array Bool) (queued : Array 
     evc := Array.replicate G.n 0 }
 
 /-- fuel of the depth-limited loop: potential `2n` at the start, at most `+10` per too-deep event,
-`-1` per pop (`potD_loop`), and (checked in every case, not yet proved) at most one too-deep event per
-cell -/
+`-1` per pop (`potD_loop`), and at most one too-deep event per cell (`too_deep_once`, proved in
+`Proofs/C06Once.lean`); `fillModelDepth_total`: this fuel is never exhausted -/
 def fuelD (G : Grid) : Nat := 12 * G.n + 1
 
 /-- `fill_depressions(elevtn, outlets, idxs_pit, nodata, max_depth = md >= 0, elv_max, connectivity)`.
